@@ -15,7 +15,7 @@ pub struct C18;
 
 fn n_cases(tier: Tier) -> u64 {
     match tier {
-        Tier::Quick => 6_000,
+        Tier::Quick => 12_000,
         Tier::Thorough => 80_000,
     }
 }
